@@ -5,6 +5,10 @@ let n_of_int i = if i = 0 then N0 else Npos (pos_of_int i)
 let rec int_of_pos = function XH -> 1 | XO p -> 2 * int_of_pos p | XI p -> 2 * int_of_pos p + 1
 let int_of_n = function N0 -> 0 | Npos p -> int_of_pos p
 let rec nat_of_int i = if i = 0 then O else S (nat_of_int (i - 1))
+let rec pos_of_int64 i = if i = 1L then XH else if Int64.logand i 1L = 0L then XO (pos_of_int64 (Int64.shift_right_logical i 1)) else XI (pos_of_int64 (Int64.shift_right_logical i 1))
+let n_of_int64 i = if i = 0L then N0 else Npos (pos_of_int64 i)
+let rec int64_of_pos = function XH -> 1L | XO p -> Int64.mul 2L (int64_of_pos p) | XI p -> Int64.add (Int64.mul 2L (int64_of_pos p)) 1L
+let int64_of_n = function N0 -> 0L | Npos p -> int64_of_pos p
 let () =
   try while true do
     let t = Array.of_list (List.filter (fun s -> s <> "") (String.split_on_char ' ' (String.trim (input_line stdin)))) in
@@ -14,5 +18,9 @@ let () =
       for i = String.length h / 2 - 1 downto 0 do l := n_of_int (int_of_string ("0x" ^ String.sub h (2 * i) 2)) :: !l done;
       let r = mapped_blocks (nat_of_int (int_of_string t.(1))) (n_of_int (int_of_string t.(2))) !l in
       print_endline (String.concat " " (List.map (fun x -> string_of_int (int_of_n x)) r))
-    end else print_endline "?"
+    end else if Array.length t = 4 && t.(0) = "A" then
+      (* A <block size> <data> <hole>  -> aligned start and end of the extent *)
+      Printf.printf "%s %s\n" (Int64.to_string (int64_of_n (data_blk (n_of_int64 (Int64.of_string t.(1))) (n_of_int64 (Int64.of_string t.(2))))))
+        (Int64.to_string (int64_of_n (hole_blk (n_of_int64 (Int64.of_string t.(1))) (n_of_int64 (Int64.of_string t.(3))))))
+    else print_endline "?"
   done with End_of_file -> ()
